@@ -84,7 +84,7 @@ SPECS["C17"] = dict(
 # --------------------------------------------------------------------------------------- C14
 _c14 = [
     H("c14_pmh_u64_n4", 600, "quick", "jaccard::compute_probminhash_jaccard::<u64>: exact count/len, symmetric, 1 on identical, in [0,1]", "symbolic length 1..=4, all u64 values"),
-    H("c14_pmh_u64_n6", 900, "thorough", "same", "symbolic length 1..=6"),
+    H("c14_pmh_u64_n6", 900, "quick", "same (lengths 5 and 6 expose inexact reciprocal arithmetic)", "symbolic length 1..=6"),
     H("c14_pmh_alias_u64_n4", 600, "quick", "jaccard::get_jaccard_index_estimate::<u64>", "symbolic length 1..=4"),
     H("c14_pmh_f64_n4", 600, "quick", "jaccard::compute_probminhash_jaccard::<f64> (no NaN)", "symbolic length 1..=4"),
     H("c14_pmh_mismatch_n4", 600, "quick", "unequal lengths: compute_probminhash_jaccard never returns a value (panics)", "all length pairs <= 4", expect_cover="none"),
